@@ -36,6 +36,9 @@ ALGOS = {
 
 
 def run(ctx: Ctx):
+    from . import c05 as _c05
+
+    ctx.section(_c05.check_counts_threshold, ctx)
     from .. import memo as _memo
 
     ctx.section(_memo.check_memo_keys, ctx, ('algorithms.', 'qcircuit.'))
@@ -84,7 +87,8 @@ def check_sandwich(ctx: Ctx, init: FuncInfo, spec: Dict):
     n_or = sum(1 for e in flat if e[0] == "ORACLE")
     if n_or == 0:
         # the constructor applies the black box through code the typestate program cannot follow: not a verdict
-        raise AnchorError(init.short, f"no black-box application found among the circuit operations of the constructor ({_show(flat)}): the circuit is built by code outside the tables")
+        ctx.undecided(init.short, f"no black-box application found among the circuit operations of the constructor ({_show(flat)}): the circuit is built by code outside the tables")
+        return
     ctx.check(n_or == 1, "TS-PREP", init, "exactly one black-box application", f"events: {_show(flat)}", f"{n_or} black-box applications in {_show(flat)}", init.node)
     if st is None:
         return
